@@ -152,58 +152,55 @@ Proof.
   destruct (pv missing_version); [discriminate|congruence].
 Qed.
 
-(* obligations on the generated extension table: no replaced extension occurs inside another *)
+(* obligations on the generated extension table: no stripped extension is a suffix of another *)
 Definition exts_indep : bool :=
-  forallb (fun ext => forallb (fun e => String.eqb e ext || String.eqb (remove_all e ext) ext) src_exts) src_exts.
+  forallb (fun e1 => forallb (fun e2 => String.eqb e1 e2 || negb (ends_with e1 e2)) src_exts) src_exts.
 Lemma gen_exts_indep : exts_indep = true.  Proof. reflexivity. Qed.
 Lemma gen_exts_nonempty : forallb (fun e => negb (String.eqb e "")) src_exts = true.  Proof. reflexivity. Qed.
-Lemma gen_src_consts : src_us_repl = ("_"%char, "-"%char) /\ src_dash = "-"%char /\ 1 <= src_window /\ src_lookahead <> 1.
-Proof. split; [reflexivity|split; [reflexivity|split; [unfold src_window; lia|unfold src_lookahead; discriminate]]]. Qed.
+Lemma gen_src_consts : src_us_repl = ("_"%char, "-"%char) /\ src_dash = "-"%char /\ 1 <= src_window /\ src_lookahead <> 1
+                       /\ src_local_sep = "+"%char.
+Proof. split; [reflexivity|split; [reflexivity|split; [unfold src_window; lia|split; [unfold src_lookahead; discriminate|reflexivity]]]]. Qed.
 
-(* none of the replaced extension strings occurs in the stem, alone or across the boundary *)
-Definition stem_ok (stem ext : string) : bool :=
-  forallb (fun e => clean e ext stem && clean e "" stem) src_exts.
-
-Lemma fold_remove_stem l stem :
-  (forall e, In e l -> clean e "" stem = true) ->
-  fold_left (fun acc e => remove_all e acc) l stem = stem.
+Lemma append_eq_cases (x y u v : string) :
+  x ++ y = u ++ v -> (exists w, y = w ++ v) \/ (exists w, v = w ++ y).
 Proof.
-  induction l as [|e l IH]; cbn [fold_left]; auto. intros H.
-  rewrite remove_all_clean; [|apply H; left; reflexivity]. apply IH. intros e' He'. apply H. right; exact He'.
+  revert u; induction x as [|c x IH]; intros u H; cbn [append] in H.
+  - left. exists u. exact H.
+  - destruct u as [|c' u]; cbn [append] in H.
+    + right. exists (String c x). symmetry. exact H.
+    + inversion H; subst. apply IH with (u := u). assumption.
 Qed.
 
-Lemma fold_remove_ext l stem ext :
-  (forall e, In e l -> e <> "" /\ clean e ext stem = true /\ clean e "" stem = true /\ (e = ext \/ remove_all e ext = ext)) ->
-  fold_left (fun acc e => remove_all e acc) l (stem ++ ext) = if str_mem ext l then stem else stem ++ ext.
+Lemma ends_with_app_cases e1 stem e2 :
+  ends_with e1 (stem ++ e2) = true -> ends_with e1 e2 = true \/ ends_with e2 e1 = true.
 Proof.
-  induction l as [|e l IH]; cbn [fold_left str_mem]; auto. intros H.
-  destruct (H e (or_introl eq_refl)) as (Hne & C1 & C2 & Hd).
-  destruct (String.eqb ext e) eqn:E.
-  - apply String.eqb_eq in E; subst e. rewrite remove_all_suffix; auto. cbn [orb].
-    apply fold_remove_stem. intros e' He'. apply H. right; exact He'.
-  - cbn [orb]. destruct Hd as [->|Hd]; [rewrite String.eqb_refl in E; discriminate|].
-    rewrite remove_all_clean_app; auto. apply IH. intros e' He'. apply H. right; exact He'.
+  intros H. apply ends_with_inv in H as [a H].
+  destruct (append_eq_cases _ _ _ _ H) as [[w ->]|[w ->]]; [left|right]; apply ends_with_app.
 Qed.
 
-Lemma str_mem_In x l : In x l -> str_mem x l = true.
+Lemma strip_ext_app l stem ext :
+  In ext l ->
+  (forall e, In e l -> e = ext \/ (ends_with e ext = false /\ ends_with ext e = false)) ->
+  strip_ext l (stem ++ ext) = stem.
 Proof.
-  induction l as [|y l IH]; cbn; [tauto|]. intros [->|H]; [rewrite String.eqb_refl; reflexivity|].
-  rewrite IH; auto. apply orb_true_r.
+  induction l as [|e l IH]; cbn [In strip_ext]; [tauto|]. intros Hin H.
+  destruct (H e (or_introl eq_refl)) as [->|[H1 H2]].
+  - rewrite ends_with_app. apply drop_last_app.
+  - destruct (ends_with e (stem ++ ext)) eqn:E.
+    + apply ends_with_app_cases in E as [E|E]; congruence.
+    + destruct Hin as [->|Hin]; [rewrite ends_with_app in E; discriminate|].
+      apply IH; auto.
 Qed.
 
-Lemma strip_exts stem ext :
-  In ext src_exts -> stem_ok stem ext = true ->
-  fold_left (fun acc e => remove_all e acc) src_exts (stem ++ ext) = stem.
+Lemma strip_exts stem ext : In ext src_exts -> strip_ext src_exts (stem ++ ext) = stem.
 Proof.
-  intros Hin Hok. rewrite fold_remove_ext; [rewrite (str_mem_In _ _ Hin); reflexivity|].
-  intros e He. unfold stem_ok in Hok. rewrite forallb_forall in Hok. specialize (Hok e He).
-  apply andb_prop in Hok as [C1 C2].
-  pose proof gen_exts_nonempty as Hn. rewrite forallb_forall in Hn. specialize (Hn e He).
+  intros Hin. apply strip_ext_app; auto. intros e He.
   pose proof gen_exts_indep as Hi. unfold exts_indep in Hi. rewrite forallb_forall in Hi.
-  specialize (Hi ext Hin). rewrite forallb_forall in Hi. specialize (Hi e He).
-  repeat split; auto.
-  - intros ->. discriminate.
-  - apply orb_prop in Hi as [Hi|Hi]; apply String.eqb_eq in Hi; auto.
+  pose proof (Hi e He) as A. rewrite forallb_forall in A. specialize (A ext Hin).
+  pose proof (Hi ext Hin) as C. rewrite forallb_forall in C. specialize (C e He).
+  destruct (String.eqb e ext) eqn:E; [left; apply String.eqb_eq; exact E|right].
+  cbn [orb] in A. rewrite String.eqb_sym, E in C. cbn [orb] in C.
+  apply negb_true_iff in A, C. auto.
 Qed.
 
 Lemma fvs_skip_name np vs : forall idx n,
@@ -235,22 +232,33 @@ Proof.
   - rewrite (H p (or_introl eq_refl)). rewrite IH; auto. intros q Hq. apply H. right; exact Hq.
 Qed.
 
-Theorem sdist_roundtrip_partial (V : Type) (pv : string -> option V) n vs ext :
+Lemma partition_recompose c s :
+  before_first c s ++ (if has_char (is_ch c) s then String c (after_first c s) else "") = s.
+Proof.
+  induction s as [|x s IH]; cbn [before_first after_first has_char append]; [reflexivity|].
+  unfold is_ch at 1. destruct (Ascii.eqb x c) eqn:E; cbn [orb append].
+  - apply Ascii.eqb_eq in E. subst. reflexivity.
+  - rewrite IH. reflexivity.
+Qed.
+
+(* the sdist round trip at full strength: every project name none of whose dash-separated parts looks
+   like a version, every version string that starts like a version, has no '-'/'_' and whose public part
+   (before '+') has no dotted part starting with linux/windows/macos - all PEP 440 versions *)
+Theorem sdist_roundtrip (V : Type) (pv : string -> option V) n vs ext :
   In ext src_exts ->
-  stem_ok (n ++ "-" ++ vs) ext = true ->
   Forall (fun p => looks_version p = false) (split_on "-"%char (repl_char ("_"%char, "-"%char) n)) ->
   looks_version vs = true -> no_ch "-" vs -> no_ch "_" vs ->
-  (forall p, In p (tl (split_on "."%char vs)) -> is_plat p = false) ->
+  (forall p, In p (tl (split_on "."%char (before_first "+"%char vs))) -> is_plat p = false) ->
   parse_source V pv (sdist_name n vs ext) = SrcOk (repl_char ("_"%char, "-"%char) n) (pv vs).
 Proof.
-  intros Hext Hok Hname Hvs Hd Hu Hplat.
+  intros Hext Hname Hvs Hd Hu Hplat.
   unfold parse_source, sdist_name.
   replace (n ++ "-" ++ vs ++ ext) with ((n ++ "-" ++ vs) ++ ext) by (rewrite !append_assoc; reflexivity).
   rewrite strip_exts; auto.
   rewrite eqb_app_self.
   2:{ pose proof gen_exts_nonempty as Hn. rewrite forallb_forall in Hn. specialize (Hn ext Hext).
       intros ->. discriminate. }
-  destruct gen_src_consts as (Er & Ed & _ & _). rewrite Er, Ed.
+  destruct gen_src_consts as (Er & Ed & _ & _ & El). rewrite Er, Ed, El.
   set (n' := repl_char ("_"%char, "-"%char) n).
   assert (repl_char ("_"%char, "-"%char) (n ++ "-" ++ vs) = n' ++ String "-"%char vs) as E1.
   { rewrite repl_char_app. cbn [append]. fold n'. f_equal. cbn [repl_char map_char fst snd Ascii.eqb].
@@ -262,75 +270,49 @@ Proof.
   rewrite app_length. cbn [List.length].
   assert (find_version_start (List.length np + 1) 0 (np ++ [vs])%list = Some (List.length np)) as Ef.
   { apply (fvs_skip_name np vs 0 (List.length np + 1)); auto. destruct np; [congruence|cbn; lia]. }
-  rewrite Ef. destruct (List.length np) as [|k] eqn:El; [destruct np; [congruence|discriminate]|].
-  rewrite <- El. rewrite firstn_app, firstn_all, Nat.sub_diag. cbn [firstn]. rewrite app_nil_r.
+  rewrite Ef. destruct (List.length np) as [|k] eqn:Eln; [destruct np; [congruence|discriminate]|].
+  rewrite <- Eln. rewrite firstn_app, firstn_all, Nat.sub_diag. cbn [firstn]. rewrite app_nil_r.
   rewrite skipn_app, skipn_all, Nat.sub_diag. cbn [skipn app joinc].
   unfold np. rewrite joinc_split_on.
   rewrite (repl_char_none ("_"%char, "-"%char) vs Hu).
-  rewrite cut_platform_id; auto. rewrite joinc_split_on. reflexivity.
+  rewrite cut_platform_id; auto. rewrite joinc_split_on, partition_recompose. reflexivity.
+Qed.
+
+(* canonical PEP 440 public versions use only these characters, so no part can start with l, w or m *)
+Definition pubchar (c : ascii) : bool := digitb c || mem_char c ".!abcdeoprstv".
+Lemma gen_plat_prefix_letters :
+  forallb (fun pre => match pre with String c _ => negb (pubchar c) | EmptyString => false end) src_plat_prefixes = true.
+Proof. reflexivity. Qed.
+
+Lemma split_on_all_chars q sep s : all_chars q s = true -> Forall (fun x => all_chars q x = true) (split_on sep s).
+Proof.
+  induction s as [|c s IH]; cbn [split_on all_chars]; [repeat constructor|].
+  intros H. apply andb_prop in H as [H1 H2]. specialize (IH H2).
+  destruct (Ascii.eqb c sep); [constructor; auto|].
+  destruct (split_on sep s) as [|h t]; [repeat constructor; cbn; rewrite H1; reflexivity|].
+  inversion IH; subst. constructor; auto. cbn. rewrite H1. assumption.
+Qed.
+
+Lemma canonical_public_no_platform vs :
+  all_chars pubchar (before_first "+"%char vs) = true ->
+  forall p, In p (tl (split_on "."%char (before_first "+"%char vs))) -> is_plat p = false.
+Proof.
+  intros H p Hp. pose proof (split_on_all_chars pubchar "."%char _ H) as F. rewrite Forall_forall in F.
+  assert (all_chars pubchar p = true) as Hpc.
+  { apply F. destruct (split_on "."%char (before_first "+"%char vs)); [destruct Hp|right; exact Hp]. }
+  unfold is_plat. apply not_true_is_false. intros E. apply existsb_exists in E as (pre & Hin & Hpre).
+  pose proof gen_plat_prefix_letters as G. rewrite forallb_forall in G. specialize (G pre Hin).
+  destruct pre as [|c r]; [discriminate|]. destruct p as [|d p']; [discriminate|].
+  cbn [prefixb] in Hpre. apply andb_prop in Hpre as [Hc _]. apply Ascii.eqb_eq in Hc. subst d.
+  cbn [all_chars] in Hpc. apply andb_prop in Hpc as [Hpc _]. rewrite Hpc in G. discriminate.
 Qed.
 
 Example sdist_guard_example :
-  In ".tar.gz" src_exts /\ stem_ok ("zope.interface" ++ "-" ++ "1!2.0rc1.post3+ubuntu.1") ".tar.gz" = true /\
+  In ".tar.gz" src_exts /\
   Forall (fun p => looks_version p = false) (split_on "-"%char (repl_char ("_"%char, "-"%char) "backports_thing-x")) /\
-  looks_version "1!2.0rc1.post3+ubuntu.1" = true /\
-  (forall p, In p (tl (split_on "."%char "1!2.0rc1.post3+ubuntu.1")) -> is_plat p = false).
-Proof.
-  repeat split; try reflexivity.
-  - left; reflexivity.
-  - repeat constructor.
-  - cbn. intros p H. repeat (destruct H as [<-|H]; [reflexivity|]). destruct H.
-Qed.
-
-(* The unguarded statement is false of the code: a local version label whose later segment
-   starts with linux/windows/macos, or that contains an archive extension, is truncated. *)
-Definition sdist_roundtrip_full_statement : Prop :=
-  forall (pv : string -> option string) n vs ext,
-    In ext src_exts ->
-    Forall (fun p => looks_version p = false) (split_on "-"%char (repl_char ("_"%char, "-"%char) n)) ->
-    looks_version vs = true -> no_ch "-" vs -> no_ch "_" vs ->
-    parse_source string pv (sdist_name n vs ext) = SrcOk (repl_char ("_"%char, "-"%char) n) (pv vs).
-
-Theorem sdist_roundtrip_refuted_local_platform :
-  exists n vs ext, In ext src_exts /\
-    Forall (fun p => looks_version p = false) (split_on "-"%char (repl_char ("_"%char, "-"%char) n)) /\
-    looks_version vs = true /\ no_ch "-" vs /\ no_ch "_" vs /\
-    parse_source string Some (sdist_name n vs ext) = SrcOk n (Some "1.0+abc") /\ vs = "1.0+abc.linux".
-Proof.
-  exists "foo", "1.0+abc.linux", ".tar.gz". repeat split; try reflexivity.
-  - left; reflexivity.
-  - repeat constructor.
-Qed.
-
-Theorem sdist_roundtrip_refuted_local_ext :
-  exists n vs ext, In ext src_exts /\
-    Forall (fun p => looks_version p = false) (split_on "-"%char (repl_char ("_"%char, "-"%char) n)) /\
-    looks_version vs = true /\ no_ch "-" vs /\ no_ch "_" vs /\
-    parse_source string Some (sdist_name n vs ext) = SrcOk n (Some "1.0+a") /\ vs = "1.0+a.zip".
-Proof.
-  exists "foo", "1.0+a.zip", ".tar.gz". repeat split; try reflexivity.
-  - left; reflexivity.
-  - repeat constructor.
-Qed.
-
-Theorem sdist_full_statement_false : ~ sdist_roundtrip_full_statement.
-Proof.
-  intros H. specialize (H Some "foo" "1.0+abc.linux" ".tar.gz").
-  assert (parse_source string Some (sdist_name "foo" "1.0+abc.linux" ".tar.gz") = SrcOk "foo" (Some "1.0+abc")) as E by reflexivity.
-  rewrite H in E; try reflexivity; [discriminate|left; reflexivity|repeat constructor].
-Qed.
-
-(* the sdist round trip through filename_to_candidate *)
-Lemma gen_sdist_exts_table :
-  forallb (fun e => match e with
-                    | String "."%char r =>
-                        let last := after_last (is_ch "."%char) e in
-                        str_mem (lower (String "."%char last)) sdist_exts
-                        && negb (String.eqb (lower (String "."%char last)) egg_ext)
-                        && negb (String.eqb (lower (String "."%char last)) wheel_ext)
-                        && negb (has_char (is_ch "/"%char) e)
-                    | _ => false end) src_exts = true.
-Proof. reflexivity. Qed.
+  looks_version "1!2.0rc1.post3+ubuntu.linux.zip" = true /\
+  all_chars pubchar (before_first "+"%char "1!2.0rc1.post3+ubuntu.linux.zip") = true.
+Proof. repeat split; try reflexivity; [left; reflexivity|repeat constructor]. Qed.
 
 Lemma ext_split e : In e src_exts ->
   exists pre last, e = pre ++ String "."%char last /\ has_char (is_ch "."%char) last = false /\
@@ -346,19 +328,20 @@ Proof.
   - exists "", "tgz". repeat split; reflexivity.
 Qed.
 
+(* through filename_to_candidate; the remaining guard is the dumb-binary filter, a heuristic on the
+   whole file name (see sdist_file_refuted_dumb_marker_in_name) *)
 Theorem sdist_file_roundtrip (V : Type) (pv : string -> option V) n vs ext v :
   In ext src_exts ->
-  stem_ok (n ++ "-" ++ vs) ext = true ->
   Forall (fun p => looks_version p = false) (split_on "-"%char (repl_char ("_"%char, "-"%char) n)) ->
   looks_version vs = true -> no_ch "-" vs -> no_ch "_" vs ->
-  (forall p, In p (tl (split_on "."%char vs)) -> is_plat p = false) ->
+  (forall p, In p (tl (split_on "."%char (before_first "+"%char vs))) -> is_plat p = false) ->
   no_ch "/" n -> no_ch "/" vs ->
   existsb (fun m => containsb m (sdist_name n vs ext)) dumb_markers = false ->
   pv vs = Some v ->
   file_to_cand V pv (sdist_name n vs ext) =
   FCand (mkCand Sdist (repl_char ("_"%char, "-"%char) n) (sdist_name n vs ext) v EmptyString None None ["any"]).
 Proof.
-  intros Hext Hok Hname Hvs Hd Hu Hplat Hsn Hsv Hdumb Hpv.
+  intros Hext Hname Hvs Hd Hu Hplat Hsn Hsv Hdumb Hpv.
   destruct (ext_split ext Hext) as (pre & last & Ee & Hl & Hs & Hm & Hegg & Hwhl).
   assert (has_char (is_ch "/"%char) (sdist_name n vs ext) = false) as Hslash.
   { unfold sdist_name. rewrite !has_char_app, Hsn, Hsv, Hs. reflexivity. }
@@ -371,5 +354,18 @@ Proof.
     cbn [orb]. apply orb_true_r. }
   unfold file_to_cand. rewrite Esp, Hegg, Hwhl, Hm, Hdumb.
   unfold parse_sdist. rewrite (basename_plain _ Hslash).
-  rewrite (sdist_roundtrip_partial V pv n vs ext); auto. rewrite Hpv. reflexivity.
+  rewrite (sdist_roundtrip V pv n vs ext); auto. rewrite Hpv. reflexivity.
+Qed.
+
+(* the dumb-binary filter looks at the whole file name, project name included *)
+Theorem sdist_file_refuted_dumb_marker_in_name :
+  exists n vs ext, In ext src_exts /\
+    Forall (fun p => looks_version p = false) (split_on "-"%char (repl_char ("_"%char, "-"%char) n)) /\
+    looks_version vs = true /\ all_chars pubchar vs = true /\
+    parse_source string Some (sdist_name n vs ext) = SrcOk n (Some vs) /\
+    file_to_cand string Some (sdist_name n vs ext) = FNone.
+Proof.
+  exists "foo.linux-tools", "1.0", ".tar.gz". repeat split; try reflexivity.
+  - left; reflexivity.
+  - repeat constructor.
 Qed.
